@@ -8,8 +8,8 @@ let join sep l = String.concat sep l
 let show_res r = match r with Ok -> "ok" | ENotFound -> "notfound" | EExists -> "exists" | EHang -> "hang"
 let observe succ n st =
   let ids l = join "," (List.map string_of_int (List.sort_uniq compare (List.map int_of_nat l))) in
-  let tags = List.sort compare (List.filter_map (fun (r, m) -> match r with RTag t -> Some (int_of_nat t, int_of_nat m) | RDig _ -> None) st.idx) in
-  let digs = List.sort_uniq compare (List.filter_map (fun (r, m) -> match r with RDig _ -> Some (int_of_nat m) | RTag _ -> None) st.idx) in
+  let tags = List.sort compare (List.filter_map (fun (r, m) -> match r with RTag t -> Some (int_of_nat t, int_of_nat m) | _ -> None) st.idx) in
+  let digs = List.sort_uniq compare (List.filter_map (fun (r, m) -> match r with RDig _ -> Some (int_of_nat m) | _ -> None) st.idx) in
   let _ = digs in
   let i = join "," (List.map (fun (t, m) -> Printf.sprintf "t%d>%d" t m) tags) in
   let p = ref [] in
@@ -21,7 +21,11 @@ let observe succ n st =
   Printf.sprintf "B:%s/I:%s/P:%s/S:%s" (ids st.blobs) i (join ";" !p) s
 
 let () =
-  let cfg = if Array.length Sys.argv > 1 && Sys.argv.(1) = "orig" then cfg_orig else cfg_fixed in
+  (* default: the repaired code; "orig": the code before all repairs; "orig+f1": before all
+     repairs except F1 (used by hand to validate the pre-repair variants against old sources) *)
+  let cfg = if Array.length Sys.argv > 1 && Sys.argv.(1) = "orig" then cfg_orig
+            else if Array.length Sys.argv > 1 && Sys.argv.(1) = "orig+f1" then { cfg_orig with fixF1 = true }
+            else cfg_fixed in
   iter_lines (fun l ->
     match split_ws l with
     | id :: _seed :: kl :: nn :: rest when String.length nn > 1 && nn.[0] = 'n' ->
